@@ -33,74 +33,6 @@ def is_name(t):
     return G.kind_of(t) == "name"
 
 
-def repair_missing_values(toks):
-    """class argument_without_value / object_field_without_value: inside `( ... )` that is not a variable
-    definition list, and inside object values there, a key Name that is not followed by `:`; repaired by
-    inserting `: 0` after it"""
-    out, hits = [], set()
-    stack = []          # entries: [kind, state]; kind in "(", "{", "["; state in K (key), C (colon), V (value)
-    n = len(toks)
-    i = 0
-    while i < n:
-        t = toks[i]
-        top = stack[-1] if stack else None
-        if top and top[0] in "({" and top[1] == "C" and t != ":":
-            # the key before this token has no value
-            hits.add("argument_without_value" if top[0] == "(" else "object_field_without_value")
-            out += [":", "0"]
-            top[1] = "K"
-        if top is None:
-            if t == "(" and i + 1 < n and toks[i + 1] != "$" and i > 0 and is_name(toks[i - 1]):
-                stack.append(["(", "K"])
-            elif t in "{[" and i > 0 and toks[i - 1] == "=":      # a default value outside parentheses
-                stack.append([t, "K" if t == "{" else "V"])
-        elif top[0] in "({":
-            st = top[1]
-            if st == "K":
-                if is_name(t):
-                    top[1] = "C"
-                elif (t == ")" and top[0] == "(") or (t == "}" and top[0] == "{"):
-                    stack.pop()
-                    if stack and stack[-1][0] in "({":
-                        stack[-1][1] = "K"
-                else:
-                    stack = []          # not an argument list after all: leave the rest alone
-            elif st == "C":
-                top[1] = "V"            # t == ":"
-            else:                       # V: a value starts here
-                if t == "$" and i + 1 < n and is_name(toks[i + 1]):
-                    out.append(t)
-                    i += 1
-                    t = toks[i]
-                    top[1] = "K"
-                elif t == "{":
-                    stack.append(["{", "K"])
-                elif t == "[":
-                    stack.append(["[", "V"])
-                elif G.kind_of(t) in ("name", "num", "str"):
-                    top[1] = "K"
-                else:
-                    stack = []
-        else:                           # inside a list value
-            if t == "]":
-                stack.pop()
-                if stack and stack[-1][0] in "({":
-                    stack[-1][1] = "K"
-            elif t == "{":
-                stack.append(["{", "K"])
-            elif t == "[":
-                stack.append(["[", "V"])
-            elif t == "$" and i + 1 < n and is_name(toks[i + 1]):
-                out.append(t)
-                i += 1
-                t = toks[i]
-            elif G.kind_of(t) not in ("name", "num", "str"):
-                stack = []
-        out.append(t)
-        i += 1
-    return out, hits
-
-
 def repair_root_operation(toks):
     """class root_operation_without_type: `query :` (mutation, subscription) directly followed by `}`;
     repaired by inserting a type name"""
@@ -113,46 +45,10 @@ def repair_root_operation(toks):
     return out, hits
 
 
-def repair_description_fragment(toks):
-    """class description_before_fragment: a StringValue directly followed by `fragment on`: the parser takes the
-    string as the `fragment` keyword and the keyword as the fragment's name; repaired by replacing the string by
-    the keyword"""
-    out, hits = list(toks), set()
-    for i in range(len(toks) - 2):
-        if G.kind_of(toks[i]) == "str" and toks[i + 1] == "fragment" and toks[i + 2] == "on":
-            out[i] = "fragment"
-            hits.add("description_before_fragment")
-    return out, hits
-
-
-def repair_empty_schema_extension_block(toks):
-    """class schema_extension_empty_block: `extend schema Directives { }`; repaired by deleting the empty block"""
-    out, hits, i, n = [], set(), 0, len(toks)
-    while i < n:
-        if toks[i] == "extend" and i + 1 < n and toks[i + 1] == "schema":
-            k = i + 2
-            while k + 1 < n and toks[k] == "@" and is_name(toks[k + 1]):
-                k += 2
-                if k < n and toks[k] == "(":
-                    depth = 0
-                    while k < n:
-                        depth += toks[k] in ("(", "[", "{")
-                        depth -= toks[k] in (")", "]", "}")
-                        k += 1
-                        if depth == 0:
-                            break
-            if k > i + 2 and k + 1 < n and toks[k] == "{" and toks[k + 1] == "}":
-                out += toks[i:k]
-                hits.add("schema_extension_empty_block")
-                i = k + 2
-                continue
-        out.append(toks[i])
-        i += 1
-    return out, hits
-
-
-REPAIRS = [repair_missing_values, repair_root_operation, repair_description_fragment,
-           repair_empty_schema_extension_block]
+# The classes argument_without_value, object_field_without_value, description_before_fragment and
+# schema_extension_empty_block were repaired in /repo (fix2-c05-1..4): a document of those shapes that the parser
+# accepts is a VIOLATION again.
+REPAIRS = [repair_root_operation]
 
 
 def repair(toks):
